@@ -2,6 +2,7 @@ package main
 
 import (
 	"fmt"
+	"math"
 	"sort"
 	"strings"
 )
@@ -116,6 +117,60 @@ func tighten(r Lin) Lin {
 
 const fmOverflowGuard = int64(1) << 40
 
+func mulOK(x, y int64) (int64, bool) {
+	if x == 0 || y == 0 {
+		return 0, true
+	}
+	r := x * y
+	if r/y != x || (x == -1 && y == math.MinInt64) || (y == -1 && x == math.MinInt64) {
+		return 0, false
+	}
+	return r, true
+}
+
+func addOK(x, y int64) (int64, bool) {
+	r := x + y
+	if (x > 0 && y > 0 && r < 0) || (x < 0 && y < 0 && r >= 0) {
+		return 0, false
+	}
+	return r, true
+}
+
+// combine returns kp·p + kn·n with overflow detection.
+func combine(p Lin, kp int64, n Lin, kn int64) (Lin, bool) {
+	r := newLin()
+	c1, ok1 := mulOK(p.c, kp)
+	c2, ok2 := mulOK(n.c, kn)
+	c, ok3 := addOK(c1, c2)
+	if !ok1 || !ok2 || !ok3 {
+		return r, false
+	}
+	r.c = c
+	for a, v := range p.coef {
+		m, ok := mulOK(v, kp)
+		if !ok {
+			return r, false
+		}
+		r.coef[a] = m
+	}
+	for a, v := range n.coef {
+		m, ok := mulOK(v, kn)
+		if !ok {
+			return r, false
+		}
+		s, ok := addOK(r.coef[a], m)
+		if !ok {
+			return r, false
+		}
+		if s == 0 {
+			delete(r.coef, a)
+		} else {
+			r.coef[a] = s
+		}
+	}
+	return r, true
+}
+
 // infeasible reports whether the conjunction of cons (each Lin ≤ 0) has no
 // integer solution, by Fourier–Motzkin elimination with integer tightening.
 // It gives up (returns false) on blow-up or large coefficients: sound, not complete.
@@ -168,20 +223,11 @@ func infeasible(cons []Lin) bool {
 			for _, n := range neg {
 				a, b := p.coef[best], -n.coef[best]
 				g := gcd64(a, b)
-				if a/g > fmOverflowGuard || b/g > fmOverflowGuard {
-					return false
+				r, ok := combine(p, b/g, n, a/g)
+				if !ok {
+					return false // arithmetic overflow: give up (sound: "not proved")
 				}
-				r := p.scale(b / g).add(n, a/g)
 				delete(r.coef, best)
-				big := false
-				for _, v := range r.coef {
-					if v > fmOverflowGuard || v < -fmOverflowGuard {
-						big = true
-					}
-				}
-				if big || r.c > fmOverflowGuard*1024 || r.c < -fmOverflowGuard*1024 {
-					return false
-				}
 				rest = append(rest, tighten(r))
 			}
 		}
